@@ -91,7 +91,7 @@ SkinReqs(bd) == { [q |-> "size"], [q |-> "k0"], [q |-> "kM"], [q |-> "kG0", N |-
 (* stiffeners: laminates of base / flange are used by the replay only *)
 SD(kind, ys, base, flange, mb, nb, mf, nf) ==
     [kind |-> kind, ys |-> ys, base |-> base, flange |-> flange, bb |-> R(1,4), bf |-> R(3,8),
-     mb |-> mb, nb |-> nb, mf |-> mf, nf |-> nf, blam |-> LamSym, flam |-> LamIso]
+     mb |-> mb, nb |-> nb, mf |-> mf, nf |-> nf, blam |-> LamSym, flam |-> LamIso, mu |-> R(5,4)]
 Y1 == R(1,2)
 Y2 == R(1,1)
 B1f  == SD("b1d", Y1, FALSE, TRUE, 0, 0, 0, 0)
@@ -118,6 +118,8 @@ PartForces(sd, part, i) ==
     IN << <<RMul(R(1,2), A_), RMul(R(i, i + 1), w), R(i,1), R(-2,1), R(3,1)>>, <<RMul(R(3,4), A_), w, RZero, R(1,2), R(-i,1)>> >>
 StiffReqs(bd) ==
     { [q |-> "size"], [q |-> "place"] }
+    \cup { [q |-> "stiff", k |-> i, mat |-> mt, Nf |-> << R(-2 - i, 1), R(1,4), R(1,2) >>, Nb |-> << R(-1 - i, 1), RZero, R(1,8) >>] :
+              i \in { j \in 1..Len(bd.stiffs) : bd.stiffs[j].kind \in {"b2d", "t2d"} }, mt \in {"k0", "kG0", "kM"} }
     \cup { [q |-> "b1dmass", k |-> i] : i \in { j \in 1..Len(bd.stiffs) : bd.stiffs[j].kind = "b1d" /\ ~bd.stiffs[j].base } }
     \cup {
       [q |-> "fext", skin |-> SkinForces(bd.skin), forces |-> Fn([i \in 1..Len(bd.stiffs) |->
